@@ -612,6 +612,15 @@ class SimNet:
         self.fds.pop(fd, None)
 
     # connections ----------------------------------------------------------------
+    def step_wall_clock(self, at, delta):
+        """Fault: at virtual time ``at`` the wall clock (time.time, datetime.now) jumps by
+        ``delta`` seconds; the monotonic clock and every loop timer are unaffected."""
+        def step():
+            self.wall_offset = getattr(self, "wall_offset", 0.0) + delta
+            self.stats["wall_clock_step"] += 1
+            self.log("wallstep", "clock")
+        self.at(at, step)
+
     def resolve(self, host):
         # what a real resolver is handed: socket.getaddrinfo (and ssl's server_hostname) encode a
         # str host with the "idna" codec - nameprep: NFKC + case folding, so full-width or
